@@ -15,10 +15,10 @@ EXTENDS Integers, Sequences, FiniteSets, TLC, Json
 CONSTANTS MAXLEN, CALLS      \* CALLS: set of call ids (attributes below)
 
 \* call attributes: kind, macroblock grid (0 = not applicable), parallel (uses the row pipeline)
-Kind(c) == CASE c \in (0..7) \cup {23, 24} -> "lossy-enc" [] c \in (8..11) \cup (25..27) \cup {30} -> "lossless-enc" [] c \in (12..15) \cup {29, 37, 38} -> "lossy-dec"
+Kind(c) == CASE c \in (0..7) \cup {23, 24, 40, 41} -> "lossy-enc" [] c \in (8..11) \cup (25..27) \cup {30, 39} -> "lossless-enc" [] c \in (12..15) \cup {29, 37, 38} -> "lossy-dec"
              [] c \in (16..18) \cup {31} -> "lossless-dec" [] c \in {19} \cup (33..36) -> "bad-lossy-dec" [] c = 20 -> "bad-lossless-dec" [] OTHER -> "other"
-\* macroblock grid class of the picture a lossy call works on: 1 = 3x2, 2 = 6x8, 3 = 5x4
-Grid(c) == CASE c \in {0, 1, 2, 3, 12, 13, 29, 37, 38} -> 1 [] c \in {4, 5, 14, 19} \cup (33..36) -> 2 [] c \in {6, 7, 15, 23, 24} -> 3 [] OTHER -> 0
+\* macroblock grid class of the picture a lossy call works on: 1 = 3x2, 2 = 6x8, 3 = 5x4, 4 = 2x2
+Grid(c) == CASE c \in {0, 1, 2, 3, 12, 13, 29, 37, 38} -> 1 [] c \in {4, 5, 14, 19} \cup (33..36) -> 2 [] c \in {6, 7, 15, 23, 24} -> 3 [] c \in {40, 41} -> 4 [] OTHER -> 0
 Parallel(c) == c \in {4, 5}
 
 VARIABLES encObj, decObj, llDecUsed, llEncUsed, hist, reuse
